@@ -204,8 +204,10 @@ build_hand_gset(void)
 static const char *const LOOPS[] = {
     "n=1 s=0 f=0 arcs=0>0:a:1,0>0:i:1,0>0:oh:1,0>0:go:1,0>0:no:1,0>0:ago:1",
     "n=2 s=0 f=1 arcs=0>1:a:1,0>1:i:1,0>1:oh:1,0>1:go:1,0>1:no:1,1>0:eps:1,1>1:at:1",
+    "n=1 s=0 f=0 arcs=0>0:one:1,0>0:two:1,0>0:three:1,0>0:four:1,0>0:five:1,0>0:six:1,0>0:seven:1,0>0:eight:1,0>0:nine:1,0>0:ten:1,0>0:go:1,"
+    "0>0:forward:1,0>0:backward:1,0>0:meter:1,0>0:meters:1,0>0:a:1,0>0:the:1,0>0:to:1,0>0:for:1",
 };
-static char LOOPBUF[sizeof LOOPS / sizeof *LOOPS][160];
+static char LOOPBUF[sizeof LOOPS / sizeof *LOOPS][320];
 static void
 build_loop_gset(void)
 {
@@ -389,6 +391,15 @@ static int CUR_G = -1, CUR_ROUTE = -1, CUR_SET_OK;
 static char LAST_RESULT[1500];
 static rg_gram CUR_REF;
 static int16 ZEROS[MAXFRAMES * 160 + 1024];
+/* --real 1: REAL audio and the REAL scorer (no injected scores) for the lattice properties: excerpts of the recording under
+ * loop grammars give lattices of hundreds of nodes, which the symbolic utterances of a few dozen frames never do */
+static int REAL_MODE, PATONLY = -1;
+static int16 REALAUD[60000];
+static size_t REALN;
+#define NREAL 12
+static const size_t REAL_UTT[NREAL][2] = { { 0, 0 /* all */ }, { 0, 24000 }, { 16000, 28000 }, { 0, 36000 }, { 0, 30000 }, { 4000, 40000 }, { 4000, 32000 },
+                                             { 8000, 36000 }, { 8000, 28000 }, { 2000, 42000 }, { 6000, 38000 }, { 12000, 32000 } };
+static const int16 *AUDP = ZEROS;
 
 static const char *const FILLERS[] = { "<sil>", "[NOISE]", "[SPEECH]", "<s>", "</s>" };
 static int
@@ -600,7 +611,20 @@ run_dcase(const dcase_t *c)
     long long v0 = mc_nviol;
     const int16 *ssbf[MAXFRAMES];
 
-    if (c->u >= 0)
+    size_t real_len = 0;
+    if (REAL_MODE) {
+        size_t off = 0;
+        if (c->u >= 0) {
+            off = REAL_UTT[c->u][0];
+            real_len = REAL_UTT[c->u][1] ? REAL_UTT[c->u][1] : REALN;
+        } else if (sscanf(REPLAY_UTT, "real:%zu+%zu", &off, &real_len) != 2)
+            return 0;
+        if (off + real_len > REALN)
+            real_len = REALN - off;
+        snprintf(ud, sizeof ud, "real:%zu+%zu", off, real_len);
+        AUDP = REALAUD + off;
+        T = (int)((real_len - 410) / 160 + 1 + ((real_len - 410) % 160 ? 1 : 0));
+    } else if (c->u >= 0)
         T = utt_frames(c->u, sym, ud, sizeof ud);
     else {
         T = REPLAY_T;
@@ -632,14 +656,14 @@ run_dcase(const dcase_t *c)
         mc_viol("C01/valid-grammar-refused", cd, "the decoder refused a grammar whose words are all in the dictionary");
         return -1;
     }
-    nsamp = dc_samples_for_frames(T);
+    nsamp = REAL_MODE ? real_len : dc_samples_for_frames(T);
 
     if (decoder_start_utt(D) < 0) {
         mc_viol("C03/start-utt-failed", cd, "decoder_start_utt failed");
         return -1;
     }
     if (c->pattern == 0) {
-        rc = decoder_process_int16(D, ZEROS, nsamp, 0, 0);
+        rc = decoder_process_int16(D, AUDP, nsamp, 0, 0);
         if (rc < 0) {
             mc_viol("C03/process-failed", cd, "decoder_process_int16 returned %d", rc);
             return -1;
@@ -649,7 +673,7 @@ run_dcase(const dcase_t *c)
         /* the whole utterance in ONE full_utt call; every kind of partial result is asked for before decoder_end_utt,
          * which searches no further frame in this mode: whatever was cached for the partial result meets the final one */
         char when[64];
-        rc = decoder_process_int16(D, ZEROS, nsamp, 0, 1);
+        rc = decoder_process_int16(D, AUDP, nsamp, 0, 1);
         if (rc < 0) {
             mc_viol("C03/process-failed", cd, "decoder_process_int16(full_utt) returned %d", rc);
             return -1;
@@ -672,7 +696,7 @@ run_dcase(const dcase_t *c)
         size_t off = 0;
         while (off < nsamp) {
             size_t n = nsamp - off < (size_t)DC_SHIFT ? nsamp - off : (size_t)DC_SHIFT;
-            rc = decoder_process_int16(D, ZEROS + off, n, 0, 0);
+            rc = decoder_process_int16(D, AUDP + off, n, 0, 0);
             if (rc < 0) {
                 mc_viol("C03/process-failed", cd, "decoder_process_int16 returned %d", rc);
                 return -1;
@@ -765,6 +789,9 @@ run_dcase(const dcase_t *c)
     if (check_more(g, &R, T, cd) < 0)
         goto out;
 out:
+    /* a violation found on a partial result leaves the utterance open: close it, or the next case could not start one */
+    if (D->acmod->state != ACMOD_ENDED && D->acmod->state != ACMOD_IDLE)
+        (void)decoder_end_utt(D);
     if (mc_nviol != v0)
         return -1;
     return nontrivial;
@@ -779,7 +806,7 @@ run_index(long long idx, void *arg)
 {
     dcase_t c;
     (void)arg;
-    c.pattern = (int)(idx % NPAT);
+    c.pattern = PATONLY >= 0 ? PATONLY : (int)(idx % NPAT);
     idx /= NPAT;
     c.u = (long)(idx % NUTT);
     idx /= NUTT;
@@ -858,7 +885,7 @@ replay_one(const char *cas)
     for (c.route = 0; c.route < NROUTES; c.route++)
         if (strcmp(ROUTE_NAME[c.route], rname) == 0)
             break;
-    T = utt_parse(utxt, DC_FRAMESYM);
+    T = strncmp(utxt, "real:", 5) == 0 ? 0 : utt_parse(utxt, DC_FRAMESYM);
     if (T < 0)
         return -1;
     REPLAY_T = T;
@@ -909,6 +936,20 @@ main(int argc, char **argv)
     CONF.pip = mc_arg(argc, argv, "--pip", NULL);
     CONF.frate = atoi(mc_arg(argc, argv, "--frate", "0"));
     DC_ADDWORDS = atoi(mc_arg(argc, argv, "--addwords", "0"));
+    REAL_MODE = atoi(mc_arg(argc, argv, "--real", "0"));
+    DC_FULLDICT = atoi(mc_arg(argc, argv, "--fulldict", "0"));
+    if (REAL_MODE) {
+        FILE *rf = fopen("/repo/tests/data/goforward.raw", "rb");
+        if (!rf)
+            return 2;
+        REALN = fread(REALAUD, 2, 60000, rf);
+        fclose(rf);
+        DC_INJECT = 0;
+        if (strstr(props, "C01") || strstr(props, "C02") || strstr(props, "C03") || strstr(props, "C04") || strstr(props, "C14")) {
+            fprintf(stderr, "--real is for the lattice properties only\n");
+            return 2;
+        }
+    }
     {
         static char cn[160];
         snprintf(cn, sizeof cn, "%s/filler%d/alt%d/lw%s/wip%s/pip%s%s", CONFNAME, CONF.usefiller, CONF.usealt, CONF.lw ? CONF.lw : "-",
@@ -938,7 +979,8 @@ main(int argc, char **argv)
                 ROUTES[NR++] = k;
     }
     NPAT = atoi(mc_arg(argc, argv, "--patterns", "3"));
-    NUTT = utt_count();
+    PATONLY = atoi(mc_arg(argc, argv, "--pattern", "-1")); /* one call pattern only (with --patterns 1) */
+    NUTT = REAL_MODE ? NREAL : utt_count();
     unlink(DICT_PATH);
 
     if (cas) {
